@@ -49,14 +49,24 @@ def run_rules(prop, root, ctrl):
     return viol, fdir
 
 
-def run(prop, repo, only=None):
+def _touched(patch):
+    try:
+        return {l[6:].strip() for l in open(patch, encoding="utf-8", errors="replace") if l.startswith("+++ b/")}
+    except OSError:
+        return set()
+
+
+def run(prop, repo, only=None, relevant_files=None, budget=None):
     t0 = time.time()
     cdir, _ = export.export(os.path.join(VERIF, "fixtures", "positive"), expect=("verif_positive-lib.json",), cargo_args=("--lib",))
     ctrl = Program([os.path.join(cdir, "verif_positive-lib.json")])
     muts = sorted(glob.glob(os.path.join(VERIF, "selftest", "mutants", "%s-*.patch" % prop))) + \
         sorted(glob.glob(os.path.join(VERIF, "seeded", "*", "patch.diff")))
     benign = sorted(glob.glob(os.path.join(VERIF, "selftest", "benign", "*.patch")))
+    if relevant_files:
+        benign.sort(key=lambda p_: (0 if _touched(p_) & set(relevant_files) else 1, p_))
     out = []
+    skipped_for_budget = []
     for kind, patches in (("mutant", muts), ("benign", benign)):
         for p in patches:
             if kind == "mutant" and "/seeded/" in p:
@@ -70,6 +80,9 @@ def run(prop, repo, only=None):
             if only and only not in p:
                 continue
             name = os.path.relpath(p, VERIF)
+            if budget and kind == "benign" and time.time() - t0 > budget:
+                skipped_for_budget.append(name)
+                continue
             root = scratch_copy(repo)
             fdir = None
             try:
@@ -95,6 +108,7 @@ def run(prop, repo, only=None):
         "benign_applied": len(b), "benign_silent": len([x for x in b if x.get("fired") is False]),
         "benign_false_alarms": [x["patch"] for x in b if x.get("fired")],
         "not_applicable_patches": [x["patch"] for x in out if not x.get("applied")],
+        "benign_skipped_for_time_budget": skipped_for_budget,
         "details": out, "wall_s": round(time.time() - t0, 1)}}
 
 
